@@ -411,7 +411,19 @@ impl C03 {
                 return out;
             }
             let Some(cfg) = a.cfg else {
-                ctx.skip(&format!("no_cfg:{}", a.cfg_error.map(|e| e.code).unwrap_or_default()));
+                let code = a.cfg_error.map(|e| e.code).unwrap_or_default();
+                // no graph at all because of "a label without an instruction", although every label of
+                // the text is followed by an instruction: there is nothing that could match the control flow
+                let every_label_has_code = case.lines.iter().enumerate().all(|(k, l)| !matches!(l, Line::Label(_)) || case.lines[k + 1..].iter().any(|y| matches!(y, Line::Ins(_))));
+                if code == "cfg:label-without-instruction" && every_label_has_code {
+                    out.push(
+                        Violation::new(format!("no graph is built (\"label without instruction\") although every label of the program is followed by an instruction\n{}", rd.text))
+                            .with("clause", "no-graph")
+                            .with("code", code),
+                    );
+                    return out;
+                }
+                ctx.skip(&format!("no_cfg:{code}"));
                 return out;
             };
             let lk = link(&rd, &case.lines, &cfg);
